@@ -8,6 +8,7 @@ import (
 	"go/token"
 	"go/types"
 	"sort"
+	"strings"
 
 	"golang.org/x/tools/go/ssa"
 )
@@ -187,6 +188,7 @@ func (e *Enc) enterLoop(fr *Frame, li *loopInfo, pre *State) *State {
 				lab = fmt.Sprintf("%d", i+1)
 			}
 			e.oblig(pre, "inv-entry", label+":"+lab, c, li.head.Instrs[0].Pos(), inv.Tags, inv)
+			e.assume(pre, c) // checked above; kept as a lemma about the pre-loop state
 		}
 	}
 	li.preSt = pre
@@ -205,12 +207,18 @@ func (e *Enc) enterLoop(fr *Frame, li *loopInfo, pre *State) *State {
 	}
 	// validity of havocked cells is assumed after next is havocked
 	if mod.allHeaps {
+		// lock ownership is only changed by the sync primitives (listed explicitly in modifies clauses)
 		for n := range e.base {
-			mod.heaps[n] = true
+			if !strings.HasPrefix(n, "G_held") && !strings.HasPrefix(n, "G_rheld") {
+				mod.heaps[n] = true
+			}
 		}
 		for n := range pre.heaps {
-			mod.heaps[n] = true
+			if !strings.HasPrefix(n, "G_held") && !strings.HasPrefix(n, "G_rheld") {
+				mod.heaps[n] = true
+			}
 		}
+		head.lazyAll = true
 	}
 	var hns []string
 	for n := range mod.heaps {
@@ -222,6 +230,7 @@ func (e *Enc) enterLoop(fr *Frame, li *loopInfo, pre *State) *State {
 		if !ok {
 			old, ok = e.base[n]
 			if !ok {
+				head.lazy[n] = true
 				continue
 			}
 		}
@@ -1105,15 +1114,69 @@ func (e *Enc) makeInterface(st *State, x Val, t types.Type) Val {
 	}
 	e.fact(Not(isPtr))
 	box := e.alloc(st, "box")
-	e.store(st, box, x, t)
+	e.boxStore(box, x, t)
 	return MkIface(tag, box)
+}
+
+// Boxes (non-pointer values held in interfaces) are immutable in Go: their contents
+// live in write-once arrays B_<sort> that no store or havoc can reach.
+func (e *Enc) boxArray(s Sort) Val {
+	return e.declare("B_"+mangle(string(s)), ArraySort(SLoc, s))
+}
+
+func (e *Enc) boxStore(loc, v Val, t types.Type) {
+	w := e.P.W
+	switch u := t.Underlying().(type) {
+	case *types.Struct:
+		si := w.StructOf(t)
+		for _, f := range si.Fields {
+			e.boxStore(FieldLoc(loc, f.FID), Val{app(f.Sel, v.T), f.Sort}, f.Type)
+		}
+		return
+	case *types.Array:
+		if u.Len() <= 32 {
+			for i := int64(0); i < u.Len(); i++ {
+				e.boxStore(ElemLoc(loc, BV(64, uint64(i))), Select(v, BV(64, uint64(i))), u.Elem())
+			}
+		}
+		return
+	}
+	e.fact(Eq(Select(e.boxArray(w.SortOf(t)), loc), v))
+}
+
+func (e *Enc) boxLoad(loc Val, t types.Type) Val {
+	w := e.P.W
+	switch u := t.Underlying().(type) {
+	case *types.Struct:
+		si := w.StructOf(t)
+		if len(si.Fields) == 0 {
+			return Val{si.Ctor, Sort(si.Name)}
+		}
+		var as []string
+		for _, f := range si.Fields {
+			as = append(as, e.boxLoad(FieldLoc(loc, f.FID), f.Type).T)
+		}
+		return Val{app(si.Ctor, as...), Sort(si.Name)}
+	case *types.Array:
+		es := w.SortOf(u.Elem())
+		as := ArraySort(BVSort(64), es)
+		arr := Val{fmt.Sprintf("((as const %s) %s)", as, w.ZeroOf(u.Elem()).T), as}
+		if u.Len() <= 32 {
+			for i := int64(0); i < u.Len(); i++ {
+				arr = Store(arr, BV(64, uint64(i)), e.boxLoad(ElemLoc(loc, BV(64, uint64(i))), u.Elem()))
+			}
+			return arr
+		}
+		return e.fresh("boxarr", as)
+	}
+	return Select(e.boxArray(w.SortOf(t)), loc)
 }
 
 func (e *Enc) unbox(st *State, i Val, t types.Type) Val {
 	if isPointerShaped(t) {
 		return IVal(i)
 	}
-	return e.load(st, IVal(i), t)
+	return e.boxLoad(IVal(i), t)
 }
 
 func (e *Enc) typeAssert(fr *Frame, st *State, in *ssa.TypeAssert) {
@@ -1175,6 +1238,9 @@ func (e *Enc) immGlobal(g *ssa.Global) (Val, bool) {
 		}
 		pkg := g.Pkg.Pkg.Path()
 		e.contractsUsed[pkg+".init"] = true
+		if !strings.HasPrefix(pkg, e.P.ModPath) {
+			e.assumedUsed["init-ensures of external package "+pkg+" and immutability of "+g.Name()] = true
+		}
 		// machine-checked frame condition: nothing outside the package initialiser writes the global
 		for _, w := range e.P.writersOf(g) {
 			e.oblig(e.entry, "frame", "immutable-global-written:"+g.Name()+" in "+w, False, g.Pos(), nil, nil)
